@@ -174,6 +174,18 @@ func c14Gen(rt *rapid.T) wProg {
 				}
 				p.Ops = append(p.Ops, wOp{K: "tick", N: 5500}, wOp{K: "del", S: a, T: ta, A: "topic", F: gPct(rt, 50)})
 			}
+		case x == 90:
+			// a long-polling client goes away without a word while attached; its session's idle time runs
+			// out and the next connection which is accepted expires it: it ends up detached from every topic
+			s := gInt(rt, 1, len(p.Sess)-1, "abandoned")
+			other := (s + 1 + gInt(rt, 0, len(p.Sess)-2, "newconn")) % len(p.Sess)
+			p.Ops = append(p.Ops, wOp{K: "sub", S: s, T: "g0"}, wOp{K: "sub", S: s, T: "me"}, wOp{K: "abandon", S: s}, wOp{K: "tick", N: 75000})
+			if gPct(rt, 50) {
+				p.Ops = append(p.Ops, wOp{K: "par", Par: []wOp{{K: "conn", S: other}, {K: "pub", S: 0, T: "g0"}}})
+			} else {
+				p.Ops = append(p.Ops, wOp{K: "reconn", S: other})
+			}
+			p.Ops = append(p.Ops, wOp{K: "pub", S: 0, T: "g0"}, wOp{K: "get", S: 0, T: "g0", A: "sub"})
 		case x == 89:
 			// everybody leaves the group; at the very moment its idle timer fires several sessions come back
 			for k := range p.Sess {
